@@ -37,10 +37,11 @@ type stream struct {
 
 func newStream(name StreamName, streamID StreamID, streamer *streamer) *stream {
 	stream := stream{
-		name:     name,
-		streamID: streamID,
-		streamer: streamer,
-		mu:       &sync.Mutex{},
+		name:       name,
+		streamID:   streamID,
+		streamer:   streamer,
+		mu:         &sync.Mutex{},
+		blockIndex: -1,
 	}
 	stream.cond = sync.NewCond(stream.mu)
 
@@ -167,6 +168,13 @@ func (s *stream) tryUnblock() bool {
 	}
 
 	s.mu.Lock()
+	// the caller works on a snapshot of the blocked streams: the processor
+	// may have woken up and taken the next event since it was made.
+	if !s.streamer.isBlocked(s) {
+		s.mu.Unlock()
+		return false
+	}
+
 	if time.Since(s.blockTime) < s.streamer.eventTimeout {
 		s.mu.Unlock()
 		return false
